@@ -56,8 +56,8 @@ Find(vs, first) ==
                    r2 == FindIn(s, p, OffClamp(len, xa), OffClamp(len, xb), first)
                IN IF r1 = r2 THEN r1 ELSE Open                \* the two readings disagree: open
 
-RECURSIVE RepeatSeq(_, _)
-RepeatSeq(c, k) == IF k <= 0 THEN <<>> ELSE c \o RepeatSeq(c, k - 1)
+\* k copies of the sequence c (not recursive: widths of several hundred occur)
+RepeatSeq(c, k) == IF k <= 0 \/ Len(c) = 0 THEN <<>> ELSE [i \in 1..(k * Len(c)) |-> c[((i - 1) % Len(c)) + 1]]
 
 Pad(vs, left) ==
   LET n == Len(vs) IN
